@@ -935,56 +935,15 @@ theorem sim_bind {p : Prog} {pre post : PCode} {ti pos : Nat} {opt : UInt8} {vm 
   have hp0' : p.positions[vm.pc + 1 - 1]? = some pos := by rw [hpc]; simpa using hp0
   have hpL' : p.positions[pre.length + 1 + (uvEnc ti).length + 1 - 1]? = some pos := by
     rw [← hpL]; congr 1; omega
-  simp only [exec, bindSem, hp0']
-  have hbnd : (vm.sem).binding = vm.binding := rfl
-  rw [hbnd]
-  -- the two sides now differ only in the record they update; treat both binding cases
   have main : ∀ (vm' : VM) (s : Sem), vm'.sem = s → vm'.pc = pre.length + 1 + (uvEnc ti).length + 1 →
-      StepSim p
-        (match constStr p ti with
-          | some bt =>
-            let sel := opt.toNat % 16
-            let tgt := opt.toNat / 16 * 16
-            let blocks := vm'.result.filter (fun b => b.typ = bt)
-            if blocks.isEmpty then rtError p vm' (str "bind: no blocks of type " ++ bt)
-            else if blocks.length ≠ 1 && sel = selOne then
-              rtError p vm' (str "bind: found " ++ natDec blocks.length ++ str " blocks of type " ++ bt
-                            ++ str " but expected just 1")
-            else
-              let first := blocks.headD default
-              let last := blocks.getLastD default
-              if tgt = tgtStruct && (sel = selOne || sel = selFirst) then .next { vm' with binding := some (.struct first) }
-              else if tgt = tgtStruct && sel = selLast then .next { vm' with binding := some (.struct last) }
-              else if tgt = tgtSlice && sel = selAll then .next { vm' with binding := some (.slice blocks) }
-              else if tgt = tgtSlice && (sel = selOne || sel = selFirst) then .next { vm' with binding := some (.slice [first]) }
-              else if tgt = tgtSlice && sel = selLast then .next { vm' with binding := some (.slice [last]) }
-              else rtError p vm' (str "invalid bind target and selector :0x" ++ padLeft 2 32 (hexLower opt.toNat))
-          | none => .panic vm')
-        (pre.length + (1 + (uvEnc ti).length + 1))
-        (match constStr p ti with
-          | some bt =>
-            let sel := opt.toNat % 16
-            let tgt := opt.toNat / 16 * 16
-            let blocks := s.result.filter (fun b => b.typ = bt)
-            if blocks.isEmpty then .err pos (str "bind: no blocks of type " ++ bt)
-            else if blocks.length ≠ 1 && sel = selOne then
-              .err pos (str "bind: found " ++ natDec blocks.length ++ str " blocks of type " ++ bt
-                            ++ str " but expected just 1")
-            else
-              let first := blocks.headD default
-              let last := blocks.getLastD default
-              if tgt = tgtStruct && (sel = selOne || sel = selFirst) then .ok { s with binding := some (.struct first) }
-              else if tgt = tgtStruct && sel = selLast then .ok { s with binding := some (.struct last) }
-              else if tgt = tgtSlice && sel = selAll then .ok { s with binding := some (.slice blocks) }
-              else if tgt = tgtSlice && (sel = selOne || sel = selFirst) then .ok { s with binding := some (.slice [first]) }
-              else if tgt = tgtSlice && sel = selLast then .ok { s with binding := some (.slice [last]) }
-              else .err pos (str "invalid bind target and selector :0x" ++ padLeft 2 32 (hexLower opt.toNat))
-          | none => .wrong) := by
+      StepSim p (bindStep p ti opt.toNat vm') (pre.length + (1 + (uvEnc ti).length + 1))
+        (bindCore p ti opt.toNat pos s) := by
     intro vm' s hs hpc'
     subst hs
     have hres : (vm'.sem).result = vm'.result := rfl
     have hrt : ∀ msg, rtError p vm' msg = .halt vm' (.rt (rtText p pos msg)) :=
       fun msg => rtError_eq msg (by rw [hpc']; exact hpL')
+    unfold bindCore bindStep
     cases constStr p ti with
     | none => trivial
     | some bt =>
@@ -994,8 +953,14 @@ theorem sim_bind {p : Prog} {pre post : PCode} {ti pos : Nat} {opt : UInt8} {vm 
         | exact ⟨_, rfl⟩
         | exact ⟨_, rfl, by simp [VM.sem], by simp [hpc']; omega⟩
   cases hb : vm.binding with
-  | none => exact main _ _ (by simp [VM.sem, hb]) rfl
-  | some bnd => exact main _ _ (by simp [VM.sem, hb]) rfl
+  | none =>
+    have hb' : (vm.sem).binding = none := hb
+    simp only [exec, bindSem, bindWarn, hp0', hb, hb']
+    exact main _ _ (by simp [VM.sem, hb]) rfl
+  | some bnd =>
+    have hb' : (vm.sem).binding = some bnd := hb
+    simp only [exec, bindSem, bindWarn, hp0', hb, hb']
+    exact main _ _ (by simp [VM.sem, hb]) rfl
 
 end Bclv
 
